@@ -7,6 +7,29 @@ class Injected(Exception):
     """An exception the harness raised on purpose from user code."""
 
 
+class InjectedTypeError(Injected, TypeError):
+    pass
+
+
+class InjectedValueError(Injected, ValueError):
+    pass
+
+
+class InjectedKeyError(Injected, KeyError):
+    pass
+
+
+class InjectedRuntimeError(Injected, RuntimeError):
+    pass
+
+
+class InjectedOSError(Injected, OSError):
+    pass
+
+
+INJECTED_KINDS = [Injected, InjectedTypeError, InjectedValueError, InjectedKeyError, InjectedRuntimeError, InjectedOSError, Injected]
+
+
 class TaskRec:
     __slots__ = (
         "pool", "tid", "req", "inv", "begun", "finished", "outcome", "pending",
@@ -90,6 +113,7 @@ class ReqRec:
         self.nc = spec.get("nc", 1)
         self.bad = set(spec.get("bad", ()))  # element indices whose call fails
         self.callraise = set(spec.get("callraise", ()))
+        self.empties = set(spec.get("empties", ())) - self.bad if kind in ("starmap", "doublestarmap") else set()
         self.args_obj = None
         self.kwargs_obj = None
         self.elements = None
